@@ -67,7 +67,10 @@ static unsigned long long c12_probe(tjhandle h, c12_mat *m, int prec, char *desc
     if (rc6 == 0) MIXB(out, 48 * 40 * 3); else { const char *e = tj3GetErrorStr(h); MIXB(e, strlen(e)); snprintf(yuverr, ysz, "%s", e); }
     tj3Set(h, TJPARAM_SUBSAMP, ss);
     PART(1);
-    rc7 = prec <= 8 ? tj3Compress8(h, m->img4, 48, 0, 40, TJPF_CMYK, &jp4, &jn4) : 0;
+    { int cs = tj3Get(h, TJPARAM_COLORSPACE);     /* a four-component source needs a four-component JPEG colourspace */
+      tj3Set(h, TJPARAM_COLORSPACE, TJCS_YCCK);
+      rc7 = prec <= 8 ? tj3Compress8(h, m->img4, 48, 0, 40, TJPF_CMYK, &jp4, &jn4) : 0;
+      tj3Set(h, TJPARAM_COLORSPACE, cs); }
     if (prec <= 8) { if (rc7 == 0) MIXB(jp4, jn4); else { const char *e = tj3GetErrorStr(h); MIXB(e, strlen(e)); } }
     tj3Free(jp4);
     PART(2);
@@ -109,10 +112,13 @@ static int c12_hist(toks_t *t)
     int k = C12_RND(13); unsigned char *jp = NULL; size_t jn = 0; char tag[24];
     switch (k) {
     case 0: case 1: {   /* parameter changes, valid and invalid */
-      int p = c12_settable[C12_RND(C12_NSET)], v = C12_P(70) ? C12_RND(12) : (C12_P(50) ? C12_RND(200) - 50 : C12_RND(100000));
+      int p = c12_settable[C12_RND(C12_NSET)], v = C12_P(45) ? C12_RND(2) : C12_P(60) ? C12_RND(12) : (C12_P(50) ? C12_RND(200) - 50 : C12_RND(100000));   /* many parameters are switches */
       tj3Set(used, p, v); snprintf(tag, sizeof(tag), "s%d=%d ", p, v); break; }
     case 2: { int pf = C12_P(50) ? TJPF_RGB : C12_P(50) ? TJPF_GRAY : TJPF_CMYK;   /* one, three and four components */
-      int rc = tj3Compress8(used, pf == TJPF_CMYK ? m.img4 : m.img, 48, 0, 40, pf, &jp, &jn); snprintf(tag, sizeof(tag), "c%d:%d ", pf, rc); tj3Free(jp); break; }
+      int cs = tj3Get(used, TJPARAM_COLORSPACE), rc;
+      if (pf == TJPF_CMYK) tj3Set(used, TJPARAM_COLORSPACE, C12_P(50) ? TJCS_CMYK : TJCS_YCCK); else if (pf == TJPF_GRAY && C12_P(50)) tj3Set(used, TJPARAM_COLORSPACE, TJCS_GRAY);
+      rc = tj3Compress8(used, pf == TJPF_CMYK ? m.img4 : m.img, 48, 0, 40, pf, &jp, &jn); snprintf(tag, sizeof(tag), "c%d:%d ", pf, rc); tj3Free(jp);
+      tj3Set(used, TJPARAM_COLORSPACE, cs); break; }
     case 12: { int rc = tj3Decompress8(used, m.rgbj, m.nrgbj, out, 0, C12_P(50) ? TJPF_RGB : TJPF_GRAY); snprintf(tag, sizeof(tag), "a%d ", rc); break; }   /* Adobe marker, RGB colourspace */
     case 3: { int rc = tj3Decompress8(used, m.good, m.ngood, out, 0, C12_RND(TJ_NUMPF)); snprintf(tag, sizeof(tag), "d%d ", rc); break; }
     case 4: {   /* truncated at a seeded place: header, inside the ICC marker, inside the data */
